@@ -513,13 +513,17 @@ def r6_pairs(facts):
                 if not ap:
                     continue
                 t, r = strip(ap[0]), strip(ap[1])
-                if t.get('k') != 'MemberExpr' or not re.search(r'(_userData|UserData|HookData)$', short(t['n'])):
+                if t.get('k') != 'MemberExpr' or r.get('k') != 'MemberExpr':
                     continue
-                if r.get('k') != 'MemberExpr' or not re.search(r'(_userData|UserData|HookData|Data)$', short(r['n'])):
+                is_ud = re.search(r'(_userData|UserData|HookData)$', short(t['n'])) and re.search(r'(_userData|UserData|HookData|Data)$', short(r['n']))
+                # the callback slot itself: sequencer-interface / hooks members that hold a function pointer
+                is_cb = (not is_ud) and re.match(r'on[A-Za-z]+$', short(t['n'])) and re.match(r'(on[A-Za-z]+|m_[A-Za-z]+Hook)$', short(r['n'])) and \
+                    ((t.get('t') or {}).get('p') or (t.get('t') or {}).get('fnptr'))
+                if not (is_ud or is_cb):
                     continue
                 ok = _slot_base(t['n']) == _slot_base(r['n'])
                 out.append(Obl('C18.R6', fn.name, '%s = %s' % (short(t['n']), short(r['n'])), st['loc'], 'discharged' if ok else 'finding',
-                               why='user data of the same callback' if ok else
+                               why='callback / user data of the same slot' if ok else
                                'the user-data slot of one callback is wired to the user data registered for another: after this reset the callback fires with a foreign pointer'))
     if len(out) < 12:
         raise build.AnalysisBroken('C18.R6: only %d callback user-data re-wirings found' % len(out))
